@@ -200,9 +200,77 @@ def build_index(has_old: bool, fail: bool, ignoreErrors: bool, dryRun: bool, st:
     return out == 'ok'
 
 
+def summary(has_id: bool, ncomp: int, nobj: int, ent: int, id_first: bool) -> bool:
+    """
+    requires: 0 <= ncomp <= 2 and 0 <= nobj <= 2 and 0 <= ent <= 2
+    """
+    # the per-module summary the index is built from, produced by the REAL parser / symbol table / code generator, and the
+    # index built from it: a module is listed under its MODULE-IDENTITY OID, under the enterprise arc any of its OIDs lies
+    # below (also when the only such symbols are the identity or a compliance statement), and under each compliance OID
+    from harness import tok, smimodel as m
+    tok.install_jinja_capture()
+    # ent: 0 = nothing below enterprises, 1 = everything below enterprises.4343, 2 = only the identity / compliances are
+    root = (3, 6, 1, 4, 1, 4343) if ent else (3, 7)
+    oroot = (3, 6, 1, 4, 1, 4343) if ent == 1 else (3, 8)
+    decls, want_oids = [], []
+    ident = None
+    if has_id:
+        ident = (1,) + root + (1,)
+        decls.append(m.module_identity('theId', m.oid('iso', *(root + (1,)))))
+        want_oids.append(ident)
+    comps = []
+    for i in range(ncomp):
+        comps.append((1,) + root + (20 + i,))
+        decls.append(m.module_compliance('mc%d' % i, m.oid('iso', *(root + (20 + i,)))))
+        want_oids.append(comps[-1])
+    objs = []
+    for i in range(nobj):
+        objs.append((1,) + oroot + (40 + i,))
+        decls.append(m.value_decl('node%d' % i, m.oid('iso', *(oroot + (40 + i,)))))
+        want_oids.append(objs[-1])
+    if not decls:
+        return True
+    if not id_first:
+        decls.reverse()
+    try:
+        trees = tok.parse_tokens(m.module('M', [], decls))
+        res = tok.compile_trees(trees, backend='json')
+    except error.PySmiError:
+        return False
+    mi = res.info['M']
+
+    def dotted(o):
+        return '.'.join(str(x) for x in o)
+    if set(mi.oids) != set(dotted(o) for o in want_oids):
+        return False
+    if (mi.identity or None) != (dotted(ident) if ident else None):
+        return False
+    if sorted(mi.compliance or []) != sorted(dotted(c) for c in comps):
+        return False
+    below = [o for o in want_oids if o[:6] == (1, 3, 6, 1, 4, 1)]
+    if (mi.enterprise or None) != (dotted(below[0][:7]) if below else None):
+        return False
+    # and the index lists the module under each of them
+    jsondoc.json = JsonId
+    st = statusCompiled.setOptions(oid=mi.oid, oids=mi.oids, identity=mi.identity, enterprise=mi.enterprise, compliance=mi.compliance)
+    idx = JsonCodeGen().genIndex({'M': st})
+    if ident and 'M' not in idx['identity'].get(dotted(ident), []):
+        return False
+    if below and 'M' not in idx['enterprise'].get(dotted(below[0][:7]), []):
+        return False
+    for c in comps:
+        if 'M' not in idx['compliance'].get(dotted(c), []):
+            return False
+    return True
+
+
 def conditions(prop, tier):
     out = []
     t = 280 if tier == 'quick' else 1500
+    out.append(dict(name='C18.summary', fn='summary', fixed={}, timeout=t,
+                    bounds='module with / without MODULE-IDENTITY, 0-2 compliance statements, 0-2 other nodes; nothing / everything / only the identity and '
+                           'compliances below enterprises; both declaration orders: MibInfo.identity / enterprise / compliance / oids from the real pipeline and '
+                           'the index entries built from them'))
     npool = 4 if tier == 'quick' else len(POOL)
     B = ('sibling arcs a,b picked by symbolic index from %r[:npool] (digit-sharing siblings; the general statement about the '
          'prefix test is the SMT obligation C18.prefix-kernel); nesting/overlap/summary-OID flags symbolic; history fixed per '
